@@ -250,6 +250,18 @@ def catalogue(P, with_checkers=True):
             for c in 'ab':
                 add('pda_accepts_word@%d#cutoff/%s^%d' % (lim, c, k), with_limit(pa.pda_accepts_word, lim), Bt + [lambda c=c, k=k: c * k], d_val)
         add('pda_words_up_to_n@%d#cutoff' % lim, with_limit(pa.pda_words_up_to_n, lim), Bt + [lambda lim=lim: 3 if lim >= 100 else 4], d_val)
+    # a second cut-off PDA: reading a^k leaves 2^k configurations with the SAME state and stack height (X or Y pushed per letter); an
+    # unbounded epsilon loop pushes Z on each of them, so the closure after a^k is cut off while the tied configurations are being
+    # expanded; b pops a Z, then a word over c / d pops the stack symbol by symbol - each continuation asks for ONE of the tied
+    # configurations.  Which of them got their Z before the cut-off must not depend on the interpreter
+    import itertools as _it
+    RPu = pd.make(['p', 'r'], 'abcd', 'XYZ', [('p', 'a', None, 'p', 'X'), ('p', 'a', None, 'p', 'Y'), ('p', None, None, 'p', 'Z'), ('p', 'b', 'Z', 'r', None),
+                                              ('r', 'c', 'X', 'r', None), ('r', 'd', 'Y', 'r', None)], 'p', ['r'])
+    Bu = [lambda: adapt.build_pda(RPu, '')]
+    for (lim, k) in ((6, 3), (10, 4), (12, 4)):
+        for t in _it.product('cd', repeat=k):
+            w_ = 'a' * k + 'b' + ''.join(t)
+            add('pda_accepts_word@%d#ties/%s' % (lim, w_), with_limit(pa.pda_accepts_word, lim), Bu + [lambda w_=w_: w_], d_val)
     for i, RG in enumerate(P['cfg']):
         B = [lambda RG=RG: adapt.build_cfg(RG)]
         for f in ('cfg_to_chomsky', 'cfg_remove_epsilon_rules', 'cfg_eliminate_unit_rules', 'cfg_add_new_start_variable', 'cfg_make_rules_of_length_two',
